@@ -138,6 +138,9 @@ def classify(case, out):
     for i, op in enumerate(case):
         t = op.split()
         o = out[i] if i < len(out) else ""
+        if t[0] == "entos":
+            q += 1
+            continue
         if t[0] == "ent":
             if t[1] == "FAIL":
                 tags.append("ent:FAIL")
@@ -181,8 +184,39 @@ def classify(case, out):
     return tags
 
 
+ERRS = ["x", "xi", "xa"]          # read() = -1 with errno EIO / EINTR / EAGAIN: all fatal in util/entropy.c (no retry)
+
+
+def short_reads(r, need, upto):
+    """chunk items that together hand over at most `upto` (< need) bytes: the read after them is still needed"""
+    items, total = [], 0
+    for _ in range(r.range(0, 5)):
+        k = r.choice([1, 1, 2, 3, 5, 16, 31, 32, 47, max(1, need - 1)])
+        if total + k > upto:
+            break
+        items.append("c%d" % k)
+        total += k
+    return items, total
+
+
+def fault_script(r, need, kinds=None):
+    """a read error (or EOF) at a position that IS reached: first read, or after short reads that left something to
+    read; whatever follows (nothing = full reads, or more chunks) must not be used"""
+    items, _ = short_reads(r, need, need - 1) if r.chance(3, 4) else ([], 0)
+    items.append(r.choice(kinds or (ERRS + ERRS + ["e"])))
+    k = r.below(4)
+    if k == 1:
+        items.append("c%d" % (need + 1))
+    elif k == 2:
+        items += ["c1", r.choice(ERRS), "c1000"]
+    elif k == 3:
+        items += ["c%d" % r.choice([1, 2, need]) for _ in range(r.range(1, 3))]
+    return items
+
+
 def gen_osent(rng, tier, mult):
-    """util/entropy.c over a scripted /dev/urandom: short reads of every shape, EOF, errors, open failure, EINTR on close"""
+    """util/entropy.c over a scripted /dev/urandom: short reads of every shape, EOF, errors of every kind at every
+    position, open failure, EINTR on close"""
     n = (600 if tier == "quick" else 8000) * mult
     cases = []
     for ci in range(n):
@@ -192,15 +226,20 @@ def gen_osent(rng, tier, mult):
             need = r.choice([0, 1, 2, 31, 32, 33, 47, 48, 49, 64, r.range(1, 200)])
             stream = r.bytes(need + r.range(0, 40))
             items = []
-            k = r.below(10)
-            if k < 6:
+            k = r.below(12)
+            if k < 5:
                 for _ in range(r.range(0, 8)):
                     items.append("c%d" % r.choice([1, 1, 2, 3, 5, 16, 31, 32, 47, 48, max(1, need - 1), max(1, need), need + 1, 1000]))
-            elif k < 8:
+            elif k < 7:
                 for _ in range(r.range(0, 4)):
                     items.append("c%d" % r.choice([1, 2, 7, 16, 31]))
-                items.append(r.choice(["e", "x"]))
-            elif k == 8:
+                items.append(r.choice(["e"] + ERRS))
+            elif k < 10:
+                if need == 0:
+                    need = r.choice([1, 32, 48])
+                    stream = r.bytes(need + r.range(0, 40))
+                items = fault_script(r, need)
+            elif k == 10:
                 items.append("o")
             else:
                 items += ["c%d" % r.range(1, 40), "i"]
@@ -209,13 +248,93 @@ def gen_osent(rng, tier, mult):
     return cases
 
 
+def entos(r, n, fault, kinds=None):
+    """one /dev/urandom session asked for n bytes: with a fault at a reached position, or with short reads only"""
+    if fault:
+        items = fault_script(r, n, kinds)
+        if r.chance(1, 8):
+            items = ["o"]
+    else:
+        items = ["c%d" % r.choice([1, 2, 5, 16, 31, 32, 47, n - 1, n, n + 1, 1000]) for _ in range(r.range(0, 6))]
+        if r.chance(1, 6):
+            items.append("i")
+    return "entos %d %s %s" % (n, hx(r.bytes(n + r.range(0, 9))), ",".join(items) or "-")
+
+
+def case_os_inst(r):
+    """the real entropy_read under crypto_entropy_read: fault(s) at instantiation, retry, a few requests"""
+    ops = []
+    for _ in range(r.range(0, 2)):
+        ops.append(entos(r, 48, True))
+        ops.append("read %d" % r.choice([0, 1, 32, 33, MAXLEN + 1]))
+    ops.append(entos(r, 48, False))
+    if r.chance(1, 6):
+        ops[-1] = entos(r, 32, False)              # a session written for another length: EIO, the call fails
+        ops.append(ent(r, 48))
+    ops.append(entos(r, 32, r.chance(1, 2)))
+    for _ in range(r.range(1, 4)):
+        ops.append("read %d" % size(r, small=True))
+    return ops
+
+
+def case_os_reseed(r):
+    """… fault(s) at the first reseed (counter at interval+1), retries, then a clean reseed; sometimes the reseed falls
+    between the pieces of one call"""
+    ops = [entos(r, 48, False)]
+    nf = r.range(0, 2)
+    for _ in range(nf):
+        ops.append(entos(r, 32, True))
+    ops.append(entos(r, 32, False))
+    ops.append(entos(r, 32, r.chance(1, 2)))
+    before = INTERVAL - (r.range(1, 2) if r.chance(1, 3) else 0)
+    for _ in range(before):
+        ops.append("read %d" % r.choice([1, 1, 1, 32, 33]))
+    if before < INTERVAL:
+        ops.append("read %d" % r.choice([2 * MAXLEN + 1, 3 * MAXLEN]))
+    for _ in range(nf + r.range(1, 3)):
+        ops.append("read %d" % size(r, small=True))
+    return ops
+
+
+def gen_drbgos(rng, tier, mult):
+    q = tier == "quick"
+    cases = []
+    for tag, n, fn in [("oi", 120 if q else 1200, case_os_inst), ("or", 24 if q else 150, case_os_reseed)]:
+        for ci in range(n * mult):
+            cases.append(fn(rng.fork("%s%d" % (tag, ci))))
+    return cases
+
+
+def os_tags(case, out):
+    """distribution for osent / drbgos: which read answer ended each session (from the op text) and the implementation's verdict"""
+    tags = []
+    for i, op in enumerate(case):
+        t = op.split()
+        if t[0] not in ("osread", "entos"):
+            continue
+        items = [] if t[3] == "-" else t[3].split(",")
+        names = {"x": "EIO", "xi": "EINTR", "xa": "EAGAIN", "e": "EOF"}
+        first = next((j for j, it in enumerate(items) if it in names), None)
+        if "o" in items:
+            tags.append("session:open fails")
+        elif first is None:
+            tags.append("session:no read fault" + (" (short reads)" if any(it[0] == "c" for it in items) else ""))
+        else:
+            tags.append("session:%s %s" % (names[items[first]], "at the first read" if first == 0 else "after %s short read(s)" % ("1" if first == 1 else "2+")))
+        if "i" in items:
+            tags.append("session:close interrupted once")
+    return tags
+
+
 def components(ctx):
     return [vlib.Component(
         "osent", "h_osent.c", ["util/entropy.c", "util/warnp.c"], ["osent"], gen_osent,
         nontrivial=lambda c: any(",c" in o or " c" in o for o in c),
-        rule="entropy_read of 0..200 bytes (32 and 48 emphasised) from a scripted /dev/urandom: sequences of short reads of sizes "
-             "{1,2,3,5,16,31,32,47,48,n-1,n,n+1,1000}, EOF or EIO after some short reads, open() failure, EINTR on close; non-trivial = at least one short read",
-        classify=lambda case, out: ["osent:" + ("fail" if o.startswith("fail") else "ok") for o in out],
+        rule="entropy_read of 0..200 bytes (32 and 48 emphasised) into an exact-size heap block from a scripted /dev/urandom: sequences of "
+             "short reads of sizes {1,2,3,5,16,31,32,47,48,n-1,n,n+1,1000}; EOF or read() = -1 with errno EIO / EINTR / EAGAIN as the first "
+             "answer and after 1..5 short reads that left something to read (25% of sessions), followed by nothing, by more data or by a "
+             "second error; open() failure; EINTR on close; non-trivial = at least one short read",
+        classify=lambda case, out: ["osent:" + ("fail" if o.startswith("fail") else "ok") for o in out] + os_tags(case, out),
         ldflags=["-Wl,--wrap=open,--wrap=read,--wrap=close"]),
       vlib.Component(
         "drbg", "h_drbg.c", SRCS, ["drbg"], gen_drbg,
@@ -224,15 +343,27 @@ def components(ctx):
              "{0,1,31,32,33,64,65535,65536,65537,131073}, 65536+-{31,32,33}, 2x/3x 65536 +-1, random; runs of 514..632 small calls "
              "crossing two reseed intervals; multi-piece calls straddling a reseed; OS failure at the instantiate call and at the "
              "1st/2nd reseed, with retries; non-trivial = at least one read of >0 bytes; distinct by hash of the op list",
-        classify=classify, cpu=[])]
+        classify=classify, cpu=[]),
+      vlib.Component(
+        "drbgos", "h_drbg.c", SRCS + ["util/entropy.c"], ["drbg"], gen_drbgos,
+        nontrivial=lambda c: any(o.startswith("entos") for o in c) and any(o.startswith("read") and o != "read 0" for o in c),
+        rule="crypto_entropy_read over the REAL entropy_read (util/entropy.c) and a scripted /dev/urandom: every open() starts the next "
+             "scripted session (48 bytes at instantiation, 32 at a reseed) made of short reads, or with EOF / EIO / EINTR / EAGAIN at "
+             "the first read or after short reads, or a failing open; faults at instantiation (0..2, then a clean session) and at the "
+             "first reseed (after 256 generates, also between the pieces of one call), each followed by retries; the model's OS answer "
+             "is Model.OsEntropy's result for the session; non-trivial = at least one session and one read of >0 bytes",
+        classify=lambda case, out: os_tags(case, out) + classify(case, out),
+        cpu=[], extra=["-DDRBG_OS"], ldflags=["-Wl,--wrap=open,--wrap=read,--wrap=close"])]
 
 
 def check(ctx):
     return vlib.standard_check(
         ctx, MODULES, components(ctx),
         assumptions=["HMAC_SHA256_Init/Update/Final/Buf compute RFC 2104 HMAC-SHA256 of the concatenated input (that is C01; exercised here at L1 on every run)",
-                     "entropy_read (util/entropy.c: /dev/urandom) is replaced by scripted answers; it either fills exactly the requested number of bytes or fails",
+                     "component drbg: entropy_read (util/entropy.c: /dev/urandom) is replaced by scripted answers; it either fills exactly the requested number of bytes or fails "
+                     "(a theorem about the model of util/entropy.c: os_entropy_exact / os_entropy_failure; components osent and drbgos run the real entropy_read over scripted open/read/close)",
+                     "every read(2) error on /dev/urandom, EINTR and EAGAIN included, fails the call (that is what util/entropy.c does; there is no retry)",
                      "RDRAND mixing (crypto_entropy_rdrand.c) is excluded by the property: harness built without CPUSUPPORT_X86_RDRAND",
                      "one process = one generator state (no fork/thread interaction modelled)"],
-        trusted=["pmodel (compiled Lean model)", "tools/extractors/c11.py (literals of crypto_entropy.c)", "harness/h_drbg.c",
+        trusted=["pmodel (compiled Lean model)", "tools/extractors/c11.py (literals of crypto_entropy.c)", "harness/h_drbg.c", "harness/h_osent.c", "harness/hfakeos.h (scripted open/read/close)",
                  "gcc -O1 + ASan/UBSan build of crypto_entropy.c, sha256.c (portable path, no CPU extensions)"])
